@@ -501,4 +501,165 @@ theorem lookupTree_storeTree (ts : List (Bytes × Option Node)) (h : Bytes) (t :
     lookupTree (storeTree ts h t) h = some t := by
   simp [lookupTree, storeTree]
 
+/-- "hashed or fresh" for a whole state tree. -/
+def HoFT (H : Bytes → Bytes) : Tree → Prop
+  | none => True
+  | some n => HoF H n
+
+theorem Tree.setMany_hoF {H : Bytes → Bytes} (kvs : List (Bytes × Bytes)) :
+    ∀ t : Tree, HoFT H t → ∀ t', Tree.setMany t kvs = some t' → HoFT H t' := by
+  induction kvs with
+  | nil => intro t h t' e; simp [Tree.setMany] at e; subst e; exact h
+  | cons kv rest ih =>
+    obtain ⟨k, v⟩ := kv
+    intro t h t' e
+    simp only [Tree.setMany] at e
+    cases hs : Tree.set t k v with
+    | none => simp [hs] at e
+    | some p =>
+      obtain ⟨t1, u⟩ := p
+      simp only [hs] at e
+      refine ih t1 ?_ t' e
+      cases t with
+      | none => simp [Tree.set] at hs; obtain ⟨rfl, _⟩ := hs; exact Or.inl rfl
+      | some n =>
+        simp only [Tree.set] at hs
+        cases hn : n.set k v with
+        | none => simp [hn] at hs
+        | some q =>
+          obtain ⟨n', u'⟩ := q
+          simp [hn] at hs
+          obtain ⟨rfl, _⟩ := hs
+          exact set_hoF n k v h n' u' hn
+
+/-! ### the abstract memTree protocol: `MemOK` at quiescent points -/
+namespace Mem
+
+theorem find_filter_ne {t : Tbl} {k k' : Key} {r : Rec} (h : find (t.filter (fun p => p.1 != k)) k' = some r) :
+    find t k' = some r := by
+  induction t with
+  | nil => simp [find] at h
+  | cons a rest ih =>
+    obtain ⟨ak, ar⟩ := a
+    by_cases e : ak = k
+    · subst e
+      rw [List.filter_cons_of_neg (by simp)] at h
+      have := ih h
+      by_cases e2 : ak = k'
+      · subst e2
+        -- k' was filtered out everywhere: the filtered table has no entry for it
+        exfalso
+        clear ih this
+        induction rest with
+        | nil => simp [find] at h
+        | cons b rest' ih2 =>
+          obtain ⟨bk, br⟩ := b
+          by_cases e3 : bk = ak
+          · subst e3; rw [List.filter_cons_of_neg (by simp)] at h; exact ih2 h
+          · rw [List.filter_cons_of_pos (by simpa using e3)] at h
+            simp only [find, e3, if_false] at h
+            exact ih2 h
+      · simp only [find, e2, if_false]; exact this
+    · rw [List.filter_cons_of_pos (by simpa using e)] at h
+      simp only [find] at h ⊢
+      split
+      · rename_i e2; simp only [e2, if_true] at h; exact h
+      · rename_i e2; simp only [e2, if_false] at h; exact ih h
+
+/-- the memTree part of `hashPending`, on a sub-list of the nodes. -/
+theorem fold_memOK (T : Tbl) (mv : Bool) (l : Tbl) (hl : ∀ p ∈ l, find T p.1 = some p.2) :
+    ∀ m : Tbl, (∀ k r, find m k = some r → find T k = some r) →
+      ∀ k r, find (l.foldl (fun m p => if p.2.children.isSome || mv then memAdd m p.1 p.2 else m) m) k = some r →
+        find T k = some r := by
+  induction l with
+  | nil => intro m hm; exact hm
+  | cons p rest ih =>
+    intro m hm
+    simp only [List.foldl_cons]
+    apply ih (fun q hq => hl q (by simp [hq]))
+    intro k r h
+    split at h
+    · unfold memAdd at h
+      split at h
+      · exact hm k r (find_filter_ne h)
+      · simp only [find] at h
+        split at h
+        · rename_i e; cases h; rw [← e]; exact hl p (by simp)
+        · exact hm k r h
+    · exact hm k r h
+
+theorem find_mem {t : Tbl} {k : Key} {r : Rec} (h : find t k = some r) : (k, r) ∈ t := by
+  induction t with
+  | nil => simp [find] at h
+  | cons a rest ih =>
+    obtain ⟨ak, ar⟩ := a
+    simp only [find] at h
+    split at h
+    · rename_i e; cases h; subst e; simp
+    · exact List.mem_cons_of_mem _ (ih h)
+
+theorem find_append (a b : Tbl) (k : Key) : find (a ++ b) k = match find a k with | some r => some r | none => find b k := by
+  induction a with
+  | nil => simp [find]
+  | cons x rest ih =>
+    obtain ⟨xk, xr⟩ := x
+    simp only [List.cons_append, find]
+    split
+    · rfl
+    · exact ih
+
+theorem find_isSome_of_mem {t : Tbl} {k : Key} {r : Rec} (h : (k, r) ∈ t) : ∃ r', find t k = some r' := by
+  induction t with
+  | nil => simp at h
+  | cons a rest ih =>
+    obtain ⟨ak, ar⟩ := a
+    simp only [find]
+    split
+    · exact ⟨_, rfl⟩
+    · rename_i e
+      rcases List.mem_cons.mp h with h' | h'
+      · cases h'; exact absurd rfl e
+      · exact ih h'
+
+/-- the discipline "every hashed pending update is saved before anything else is hashed" (MemSet → Commit, no
+rollback), under content addressing (`G`: a key determines its record): one step of it. -/
+def commitPair (s : St) (c : Tbl × Bool) : St := step (step s (.hashPending c.1 c.2)) (.save c.1)
+
+theorem commitPair_ok (G : Key → Option Rec) (s : St) (c : Tbl × Bool)
+    (hm : ∀ k r, find s.mem k = some r → find s.db k = some r)
+    (hd : ∀ k r, find s.db k = some r → G k = some r)
+    (hc : ∀ p ∈ c.1, G p.1 = some p.2) :
+    (∀ k r, find (commitPair s c).mem k = some r → find (commitPair s c).db k = some r) ∧
+    (∀ k r, find (commitPair s c).db k = some r → G k = some r) := by
+  have hdb : (commitPair s c).db = c.1 ++ s.db := rfl
+  have hd' : ∀ k r, find (c.1 ++ s.db) k = some r → G k = some r := by
+    intro k r h
+    rw [find_append] at h
+    split at h
+    · rename_i r' e; cases h; exact hc (k, r) (find_mem e)
+    · exact hd k r h
+  refine ⟨?_, by rw [hdb]; exact hd'⟩
+  rw [hdb]
+  have hmem : (commitPair s c).mem =
+      c.1.foldl (fun m p => if p.2.children.isSome || c.2 then memAdd m p.1 p.2 else m) s.mem := rfl
+  rw [hmem]
+  apply fold_memOK (c.1 ++ s.db) c.2 c.1
+  · intro p hp
+    obtain ⟨r', e⟩ := find_isSome_of_mem (t := c.1 ++ s.db) (k := p.1) (r := p.2) (by simp [hp])
+    have := hd' _ _ e
+    rw [hc p hp] at this
+    cases this; exact e
+  · intro k r h
+    have h1 := hm k r h
+    rw [find_append]
+    cases e : find c.1 k with
+    | none => exact h1
+    | some r' =>
+      have g1 := hc (k, r') (find_mem e)
+      have g2 := hd k r h1
+      simp only at g1
+      rw [g1] at g2; cases g2; rfl
+
+end Mem
+
 end C02
